@@ -148,6 +148,22 @@ def case_features(case, objs=None) -> List[str]:
         f.add("mixed_types")
     if any(not d for d in case["doms"]):
         f.add("empty_domain")
+    # a variable whose (type-filtered) domain is empty and that occurs beneath a disjunction (or a negation, which
+    # De Morgan turns into one): the engine never reaches it on the other disjunct
+    empty_vars = {i for i, v in enumerate(case["vars"])
+                  if not [j for j in case["doms"][v["dom"]]
+                          if case["ents"][j].get("cls", "Ent") in ("Ent", "EntSub", "EntPlain")]}
+    if empty_vars:
+        def under(n, inside):
+            if n[0] in ("or", "not"):
+                inside = True
+            if n[0] in ("and", "or"):
+                return any(under(x, inside) for x in n[2])
+            if n[0] in ("not", "forall"):
+                return under(n[2], inside)
+            return inside and bool(A.cond_vars(n) & empty_vars)
+        if under(c, False):
+            f.add("empty_domain_under_disjunction")
     return sorted(f)
 
 
@@ -178,3 +194,72 @@ def falsy_in_play(case, objs) -> bool:
             except Exception:
                 pass
     return False
+
+
+# ----------------------------------------------------------------------------- generic query evaluation
+
+def used_vars(case) -> List[int]:
+    c = case.get("cond")
+    used = set() if c is None else set(A.cond_vars(c))
+    for t in case["sel"]:
+        used |= A.term_vars(t)
+    return sorted(used)
+
+
+def reference_rows(case, objs, negate=False):
+    """(expected projected rows, number of satisfying assignments, size of the product) over the query's variables."""
+    doms = var_domains(case, objs)
+    used = used_vars(case)
+    cond = case.get("cond")
+    domd = {i: d for i, d in enumerate(doms)}
+    rows, n_sat, n_all = [], 0, 0
+    for combo in itertools.product(*[doms[v] for v in used]):
+        env = dict(zip(used, combo))
+        n_all += 1
+        ok = True if cond is None else A.eval_cond(cond, env, domd)
+        if ok != negate:
+            n_sat += 1
+            rows.append(tuple(A.eval_term(t, env) for t in case["sel"]))
+    return rows, n_sat, n_all
+
+
+def all_vars_selected(case) -> bool:
+    plain = {t[1] for t in case["sel"] if t[0] == "var"}
+    return set(used_vars(case)) <= plain
+
+
+def run_query(case, objs, negate=0, quant=None):
+    """Build freshly and evaluate; returns (rows, built)."""
+    built = build_query(case, objs, negate=negate, quant=quant)
+    res = list(built.q.evaluate())
+    return rows_of(built, res), built
+
+
+def row_consistency(case, rows):
+    """Each selected expression's value equals that expression evaluated on the row's own variable values."""
+    pos = {t[1]: i for i, t in enumerate(case["sel"]) if t[0] == "var"}
+    for r in rows:
+        env = {v: r[i] for v, i in pos.items()}
+        for i, t in enumerate(case["sel"]):
+            if t[0] == "var" or not A.term_vars(t) <= set(env):
+                continue
+            want = A.eval_term(t, env)
+            if _key(want) != _key(r[i]):
+                return f"row {r}: selected {A.r_term(t)} is {r[i]!r} but evaluates to {want!r} on the row's own variables"
+    return None
+
+
+def render_query(case):
+    ents = []
+    for i, r in enumerate(case["ents"]):
+        if r.get("cls") in ("Other", "Foreign"):
+            ents.append(f"#{i}:{r['cls']}")
+        else:
+            ents.append(f"#{i}:{r['cls']}(a={r['a']},b={r['b']},s={r['s']!r},tags={r.get('tags')},o={dec(r.get('o', 1))!r},"
+                        f"ref=#{r.get('ref')},kids={r.get('kids')})")
+    return {"entities": ents,
+            "vars": [f"v{i}={v.get('decl', 'let')}({v.get('type', 'Ent')}, dom{v['dom']})" for i, v in enumerate(case["vars"])],
+            "doms": case["doms"], "dom_kind": case.get("dom_kind"),
+            "cond": A.r_cond(case["cond"]) if case.get("cond") is not None else None,
+            "split_top": case.get("split_top"),
+            "select": f"{case.get('desc')}[{', '.join(A.r_term(t) for t in case['sel'])}]", "quant": case.get("quant", "an")}
